@@ -49,6 +49,9 @@ def domain_inputs(tier: str, seed: int, doms: str = "XRBS", scale: float = 1.0) 
         cnt = int((300 if quick else 5000) * scale)
         for g in domains.random_domain(seed * 104729 + 11, cnt, 6, 12 if quick else 18):
             out.append({"dom": "R", "g": [list(s) for s in g]})
+    if "K" in doms:
+        for g in domains.control_heavy_domain(seed * 15485863 + 29, int((250 if quick else 2500) * scale), pool=6000 if quick else 60000):
+            out.append({"dom": "K", "g": [list(s) for s in g]})
     if "B" in doms:
         lim = int((150 if quick else 100000) * scale)
         fns = corpus.corpus(limit=None)
@@ -76,7 +79,7 @@ def build(inp: Dict[str, Any], pids: PayloadIds) -> Any:
     from .record import build_scfg
 
     d = inp["dom"]
-    if d in ("X", "X5", "R", "G"):
+    if d in ("X", "X5", "R", "G", "K"):
         g = tuple(tuple(s) for s in inp["g"])
         return build_scfg(domains.graph_to_named(g))
     if d == "N":  # named graph
